@@ -247,10 +247,15 @@ def write_replay(pid, fail, extra=None):
     return p
 
 
-def known_match(pid, fail, known):
+def known_match(pid, fail, known, kani=None):
     for k in known.get('findings', []):
         if k.get('property') != pid:
             continue
+        if k.get('confirm_harness'):
+            # the finding is only this finding while the auxiliary harness that characterises it still holds
+            st = [h for h in (kani or {}).get('harnesses', []) if h['name'] == k['confirm_harness']]
+            if not st or st[0]['status'] != 'SUCCESSFUL':
+                continue
         if k.get('obligation') == fail['id']:
             return k
         if k.get('obligation_prefix') and fail['id'].startswith(k['obligation_prefix']):
@@ -343,7 +348,7 @@ def _run(pid, P, tier, seed, scratch, t0):
     kani_obl = []
     if kani:
         for h in kani['harnesses']:
-            if pid in h['tags']:
+            if pid in h['tags'] and not h.get('aux'):
                 kani_obl.append(h)
                 obligations.append(dict(id='KANI.%s' % h['name'], cfg='cbmc', where=h['fragment'],
                                         text=h['claim'], backend='kani/cbmc',
@@ -388,7 +393,7 @@ def _run(pid, P, tier, seed, scratch, t0):
         if key in seen:
             continue
         seen.add(key)
-        k = known_match(pid, f, known)
+        k = known_match(pid, f, known, kani)
         if k:
             known_hits.append((k, f))
         else:
@@ -442,7 +447,7 @@ def _run(pid, P, tier, seed, scratch, t0):
                 bad = f
         if bad is None:
             discharged_list.append(o)
-        elif known_match(pid, bad, known):
+        elif known_match(pid, bad, known, kani):
             known_obl += 1
         else:
             failed_obl += 1
